@@ -252,10 +252,10 @@ def known_findings(pid):
 
 
 class Report:
-    def __init__(self, pid, tier, seed):
+    def __init__(self, pid, tier, seed, keep_old=False):
         self.pid, self.tier, self.seed = pid, tier, seed
         self.t0 = time.time()
-        for old in glob.glob(os.path.join(ROOT, "replays", "%s_*.json" % pid)):
+        for old in ([] if keep_old else glob.glob(os.path.join(ROOT, "replays", "%s_*.json" % pid))):
             os.remove(old)
         self.violations = []
         self.known = []
